@@ -223,16 +223,26 @@ func (publisher *Publisher) Places() map[string]*place {
 				key += "-place"
 			}
 
-			if _, ok := publisher.placesMap[key]; !ok {
+			// Several spellings can share one key ("Perth, Australia" and
+			// "PERTH  australia"). The places are visited in no particular
+			// order, so the name of the page must not be the spelling that
+			// happens to be seen first: the smallest one is used.
+			existing, ok := publisher.placesMap[key]
+			if !ok || prettyName < existing.PrettyName {
 				country := placeTag.Country()
 				if country == "" {
 					country = "(unknown)"
 				}
 
+				nodes := gedcom.Nodes{}
+				if ok {
+					nodes = existing.nodes
+				}
+
 				publisher.placesMap[key] = &place{
 					PrettyName: prettyName,
 					country:    country,
-					nodes:      gedcom.Nodes{},
+					nodes:      nodes,
 				}
 			}
 
